@@ -268,6 +268,26 @@ pub fn unit(seed: u64, ctx: &mut Ctx, ctl: &mut UnitCtl) {
                 case(plan, ctx, ctl);
             }
         }
+        // every error kind a stream can report (table in world::err_kind): each seek of the
+        // undisturbed run fails once with each of them (plain and moved-then-failed alternate), and
+        // every other operation with two of them chosen by the seed. No kind but Interrupted means
+        // anything to the library or to std's adaptors, so the oracle is the same for all.
+        for k in 0..g.ops[dev] {
+            let is_seek = seek_ops[dev].contains(&k);
+            let codes: Vec<u8> = if is_seek {
+                (6..crate::world::N_ERR_KINDS).collect()
+            } else {
+                let span = (crate::world::N_ERR_KINDS - 6) as u64;
+                vec![6 + ((seed.wrapping_add(k as u64 * 5 + dev as u64 * 3)) % span) as u8, 6 + ((seed / 7).wrapping_add(k as u64 * 11 + dev as u64) % span) as u8]
+            };
+            for code in codes {
+                let kind = if is_seek && (code as u32 + k) % 3 == 0 { FaultKind::ErrMoved(code) } else { FaultKind::Err(code) };
+                let mut plan = Plan::default();
+                plan.faults.push(Fault { dev: dev as u8, at: k, kind, persistent: false });
+                ctx.stats.reach("fault-of-exotic-error-kind");
+                case(plan, ctx, ctl);
+            }
+        }
         // two and three consecutive one-shot faults: the retry itself fails, a later retry succeeds
         for k in 0..g.ops[dev] {
             for extra in [vec![1u32], vec![2], vec![1, 2], vec![1, 14]] {
